@@ -17,14 +17,17 @@ pub const DELTA: f64 = 1.4551915228366852e-11; // 2^-36
 pub struct Noise {
     pub rng: Rng,
     pub delta: f64,
+    /// evaluate a/b as a * b^-1 instead of by the quotient rule: a step-wise accurate implementation
+    /// may use either, and the two have different conditioning when terms cancel (x/x)
+    pub alt_div: bool,
 }
 
 impl Noise {
     pub fn exact() -> Self {
-        Noise { rng: Rng::new(0), delta: 0.0 }
+        Noise { rng: Rng::new(0), delta: 0.0, alt_div: false }
     }
     pub fn noisy(seed: u64) -> Self {
-        Noise { rng: Rng::new(seed), delta: DELTA }
+        Noise { rng: Rng::new(seed), delta: DELTA, alt_div: seed & 1 == 1 }
     }
     #[inline]
     pub fn n(&mut self, x: f64) -> f64 {
@@ -170,6 +173,10 @@ impl RNum {
 
     /// quotient rule, written directly (not as a * b^-1)
     pub fn div(a: &RNum, b: &RNum, nz: &mut Noise) -> RNum {
+        if nz.alt_div {
+            let inv = Self::powf(b, -1.0, nz);
+            return Self::mul(a, &inv, nz);
+        }
         let names = Self::union_names(a, b);
         let q = nz.n(a.v / b.v);
         let mut r = RNum::constant(q);
